@@ -28,3 +28,15 @@ Spec/ISA.vos Spec/ISA.vok Spec/ISA.required_vos: Spec/ISA.v
 Props/CpuEqLib.vo Props/CpuEqLib.glob Props/CpuEqLib.v.beautified Props/CpuEqLib.required_vo: Props/CpuEqLib.v Lib/ZOps.vo Lib/Machine.vo
 Props/CpuEqLib.vio: Props/CpuEqLib.v Lib/ZOps.vio Lib/Machine.vio
 Props/CpuEqLib.vos Props/CpuEqLib.vok Props/CpuEqLib.required_vos: Props/CpuEqLib.v Lib/ZOps.vos Lib/Machine.vos
+Spec/TraceSpec.vo Spec/TraceSpec.glob Spec/TraceSpec.v.beautified Spec/TraceSpec.required_vo: Spec/TraceSpec.v Spec/ISA.vo
+Spec/TraceSpec.vio: Spec/TraceSpec.v Spec/ISA.vio
+Spec/TraceSpec.vos Spec/TraceSpec.vok Spec/TraceSpec.required_vos: Spec/TraceSpec.v Spec/ISA.vos
+Model/Disasm.vo Model/Disasm.glob Model/Disasm.v.beautified Model/Disasm.required_vo: Model/Disasm.v Lib/ZOps.vo Lib/Machine.vo Spec/ISA.vo Spec/TraceSpec.vo
+Model/Disasm.vio: Model/Disasm.v Lib/ZOps.vio Lib/Machine.vio Spec/ISA.vio Spec/TraceSpec.vio
+Model/Disasm.vos Model/Disasm.vok Model/Disasm.required_vos: Model/Disasm.v Lib/ZOps.vos Lib/Machine.vos Spec/ISA.vos Spec/TraceSpec.vos
+Props/DisasmCore.vo Props/DisasmCore.glob Props/DisasmCore.v.beautified Props/DisasmCore.required_vo: Props/DisasmCore.v Lib/ZOps.vo Lib/Machine.vo Spec/ISA.vo Spec/TraceSpec.vo Model/Disasm.vo
+Props/DisasmCore.vio: Props/DisasmCore.v Lib/ZOps.vio Lib/Machine.vio Spec/ISA.vio Spec/TraceSpec.vio Model/Disasm.vio
+Props/DisasmCore.vos Props/DisasmCore.vok Props/DisasmCore.required_vos: Props/DisasmCore.v Lib/ZOps.vos Lib/Machine.vos Spec/ISA.vos Spec/TraceSpec.vos Model/Disasm.vos
+Props/DisasmProps.vo Props/DisasmProps.glob Props/DisasmProps.v.beautified Props/DisasmProps.required_vo: Props/DisasmProps.v Lib/ZOps.vo Lib/Machine.vo Spec/ISA.vo Spec/TraceSpec.vo Model/Disasm.vo Props/DisasmCore.vo
+Props/DisasmProps.vio: Props/DisasmProps.v Lib/ZOps.vio Lib/Machine.vio Spec/ISA.vio Spec/TraceSpec.vio Model/Disasm.vio Props/DisasmCore.vio
+Props/DisasmProps.vos Props/DisasmProps.vok Props/DisasmProps.required_vos: Props/DisasmProps.v Lib/ZOps.vos Lib/Machine.vos Spec/ISA.vos Spec/TraceSpec.vos Model/Disasm.vos Props/DisasmCore.vos
